@@ -1031,6 +1031,7 @@ func (p *CodeBuilder) MemberRef(name string, src ...ast.Node) *CodeBuilder {
 }
 
 func (p *CodeBuilder) refMember(typ types.Type, name string, argVal target.Expr, src ast.Node, visited map[*types.Struct]none) MemberKind {
+	_, isPtr := typ.(*types.Pointer)
 	switch o := indirect(typ).(type) {
 	case *types.Named:
 		switch u := p.getUnderlying(o).(type) {
@@ -1039,7 +1040,7 @@ func (p *CodeBuilder) refMember(typ types.Type, name string, argVal target.Expr,
 				return MemberField
 			}
 		case *types.Map:
-			if p.mapIndexRef(u, name, argVal, src) {
+			if !isPtr && p.mapIndexRef(u, name, argVal, src) {
 				return MemberField
 			}
 		}
@@ -1048,7 +1049,7 @@ func (p *CodeBuilder) refMember(typ types.Type, name string, argVal target.Expr,
 			return MemberField
 		}
 	case *types.Map:
-		if p.mapIndexRef(o, name, argVal, src) {
+		if !isPtr && p.mapIndexRef(o, name, argVal, src) { // Go does not index through a pointer to a map
 			return MemberField
 		}
 	}
